@@ -81,3 +81,29 @@ M("tls-bad-hdr-not-sticky", ["C07"], TLS, "\tts->conn.bad = true;\n\tts->conn.ba
 # (tcp_receive without the conn.bad test is an equivalent mutant: buffer_payload re-detects the bad header)
 M("tcp-hdr-valid-skipped", ["C07"], TCP, "    if (!mbuf_is_hdr_valid(rbuf)) {", "    if (0) {")
 M("tcp-deliver-partial-on-eof", ["C07", "C01"], TCP, "    int rc = buffer_msg(s);\n    if (rc <= 0)\n\treturn rc;", "    int rc = buffer_msg(s);\n    if (rc < 0)\n\treturn rc;\n    if (rc == 0 && !mbuf_is_complete(&ts->conn.receive_mbuf)) return 0;")
+
+# ---- C06
+M("btcp-recv-error-not-sticky", ["C06"], BTCP,
+  "\tif (errno != EAGAIN) {\n\t    BTCP_SET_STATE(s, conn_state_bad);\n\t    bts->conn.badness_reason = errno;\n\t}\n    } else if (rc == 0) {",
+  "    } else if (rc == 0) {")
+M("btcp-send-reset-as-eagain", ["C06"], BTCP,
+  "\t    else if (errno != EAGAIN) {\n\t\tBTCP_SET_STATE(s, conn_state_bad);\n\t\tbts->conn.badness_reason = errno;\n\t    }\n\t    goto err;",
+  "\t    else if (errno == ECONNRESET) errno = EAGAIN;\n\t    else if (errno != EAGAIN) {\n\t\tBTCP_SET_STATE(s, conn_state_bad);\n\t\tbts->conn.badness_reason = errno;\n\t    }\n\t    goto err;")
+M("btls-syscall-error-as-closed", ["C06"], BTLS,
+  "\t    } else {\n\t\tBTLS_SET_STATE(s, conn_state_bad);\n\t\tbts->conn.badness_reason = ssl_errno;\n\t    }",
+  "\t    } else {\n\t\tBTLS_SET_STATE(s, conn_state_closed);\n\t    }")
+M("btcp-finish-ok-when-bad", ["C06"], BTCP,
+  "    case conn_state_bad:\n\tLOG_FINISH_SAY_BAD(s, bts->conn.badness_reason);\n\terrno = bts->conn.badness_reason;\n\treturn -1;",
+  "    case conn_state_bad:\n\tLOG_FINISH_SAY_BAD(s, bts->conn.badness_reason);\n\treturn 0;")
+M("btcp-closed-send-econnreset", ["C06"], BTCP,
+  "    case conn_state_closed:\n\terrno = EPIPE;\n\tgoto err;", "    case conn_state_closed:\n\terrno = ECONNRESET;\n\tgoto err;")
+M("tcp-receive-close-before-complete", ["C06"], TCP,
+  "    if (try_finish_send(s) < 0 && errno != EAGAIN)\n\treturn errno == EPIPE ? 0 : -1;\n\n    int rc = buffer_msg(s);",
+  "    if (try_finish_send(s) < 0 && errno != EAGAIN)\n\treturn 0;\n\n    int rc = buffer_msg(s);")
+M("ux-reset-not-sticky", ["C06"], UX, "\tif (!is_transient(errno))\n\t    us->badness_reason = errno;\n", "", count=2)
+M("btls-handshake-forgets-lower-failure", ["C06"], BTLS, "\tif (bts->conn.state == conn_state_ready)\n\t    check_lower_layer(s);\n", "")
+M("tconnect-errno-lost", ["C06"], "libxcm/tp/tcp/tconnect.c",
+  "\t    track->badness_reason = connect_errno;\n\t    track_abort_connect(track);\n\t    track_connect_next(track);\n\t} else\n\t    LOG_CONN_IN_PROGRESS",
+  "\t    track_abort_connect(track);\n\t    track_connect_next(track);\n\t} else\n\t    LOG_CONN_IN_PROGRESS")
+M("tls-receive-ignores-bad", ["C06"], TLS, "    TP_RET_ERR_IF(ts->conn.bad, ts->conn.badness_reason);\n\n    if (try_finish_send(s) < 0 && errno != EAGAIN)\n\treturn errno == EPIPE ? 0 : -1;",
+  "    if (try_finish_send(s) < 0 && errno != EAGAIN)\n\treturn errno == EPIPE ? 0 : -1;")
